@@ -11,7 +11,7 @@ import itertools
 from vk import core
 
 LEVEL = "model_checking"
-RULE = ("all creation histories of length <= 3 (quick; the 8-AVP typed S6a request only in histories <= 2) / <= 4 (thorough) over 6 creation kinds x all os.urandom "
+RULE = ("all creation histories of length <= 3 (quick; the 8-AVP typed S6a request only in histories <= 2) / <= 4 (thorough; histories of 4 hold the typed S6a request and answer at most once each) over 6 creation kinds x all os.urandom "
         "answer sequences over 3 symbols, enumerated lazily as a tree (a branch point at every draw the code "
         "makes), at most 8 (quick) / 10 (thorough) draws per history; sequences that would need more draws are "
         "counted and discarded; the 3 symbols are instantiated with 4-byte values unique to each execution so "
@@ -107,6 +107,14 @@ def execute(history, script):
     base = 0x10000000 + 4 * _EXEC[0]
     SRC.symbols = [(base + i).to_bytes(4, "big") for i in range(3)]
     SRC.script, SRC.pos = list(script), 0
+    # an execution stands for a fresh process: the (list) registries are emptied where they can be found, so
+    # that membership tests do not slow down with the number of executions; the per-execution symbol values
+    # keep executions apart even if a change moves the registries elsewhere
+    from bromelia.base import DiameterRequest
+    for name in ("hop_by_hop_identifiers", "end_to_end_identifiers"):
+        reg = getattr(DiameterRequest, name, None)
+        if isinstance(reg, list):
+            del reg[:]
     errs = []
     made = []
     for i, kind in enumerate(history):
@@ -269,6 +277,9 @@ def run(report, tier, seed):
         for h in itertools.product(KINDS, repeat=ln):
             # the typed S6a request costs ~2 ms to build (8 AVPs); quick keeps it to histories of <= 2
             if tier == "quick" and ln == 3 and "ulr" in h:
+                continue
+            # thorough: histories of 4 hold the typed S6a request/answer at most once each
+            if ln == 4 and (h.count("ulr") > 1 or h.count("ula") > 1):
                 continue
             hs.append(h)
     # histories with the most draws dominate the cost: spread them
